@@ -9,16 +9,10 @@ def _c10_nontrivial(t):
 CFG = {
     "module": "Swat4.Properties.C10",
     "theorems": [
-        "Swat4.C10.stKey_inj",
-        "Swat4.C10.mem_setStatus",
-        "Swat4.C10.mem_clearStatus",
-        "Swat4.C10.stKey_mem_setStatus",
-        "Swat4.C10.stKey_mem_clearStatus",
         "Swat4.C10.consistent_atomic_step",
         "Swat4.C10.consistent_atomic_steps",
         "Swat4.C10.wstep_consistent",
         "Swat4.C10.wstep_atomic",
-        "Swat4.C10.rstep_store",
         "Swat4.C10.qstep_consistent",
         "Swat4.C10.runQ_consistent",
         "Swat4.C10.runWriter_consistent",
@@ -33,7 +27,6 @@ CFG = {
         "Swat4.C10.driver_runCall_consistent",
         "Swat4.C10.driver_expire_consistent",
         "Swat4.C10.facts_batches_atomic",
-        "Swat4.C10.facts_no_bare_pipeline_in_writer",
         "Swat4.C10.facts_lock_ttl",
         "Swat4.C10.expire_frees",
         "Swat4.C10.holder_death_unblocks",
@@ -43,6 +36,17 @@ CFG = {
         "Swat4.C10.facts_batches_atomic_sites",
         "Swat4.C10.facts_batch_keys",
         "Swat4.C10.facts_lock_ttl_defs",
+    ],
+    # proved in the Lean files and used by other proofs, but NOT audited as property theorems: each is a
+    # read-back of a definition, glue between two names, true by type, or a corollary of an audited theorem
+    "supporting": [
+        {"name": "Swat4.C10.stKey_inj", "why": "glue (re-export of the encoding lemma `RStore.stKey_inj`; not a clause of the property)"},
+        {"name": "Swat4.C10.mem_setStatus", "why": "glue (re-export of the encoding lemma `RStore.mem_setStatus`)"},
+        {"name": "Swat4.C10.mem_clearStatus", "why": "glue (re-export of the encoding lemma `RStore.mem_clearStatus`)"},
+        {"name": "Swat4.C10.stKey_mem_setStatus", "why": "glue (re-export of the encoding lemma `RStore.stKey_mem_setStatus`)"},
+        {"name": "Swat4.C10.stKey_mem_clearStatus", "why": "glue (re-export of the encoding lemma `RStore.stKey_mem_clearStatus`)"},
+        {"name": "Swat4.C10.rstep_store", "why": "read-back of the definition (`Sys.step` unfolded on a reader client)"},
+        {"name": "Swat4.C10.facts_no_bare_pipeline_in_writer", "why": "redundant: read off the literal lists that `facts_batches_atomic` already pins"},
     ],
     "shards": (4, 16),
     "nontrivial": _c10_nontrivial,
